@@ -231,20 +231,33 @@ pub fn gen_taxonomy_n(rng: &mut Rng, n: usize) -> (String, Vec<String>) {
         syms.push(s.to_string());
     }
     let mut d_names: Vec<String> = Vec::new();
+    // Depth of the `is` graph is kept <= MAX_LEVEL, like real ontologies: the library walks every
+    // *path* of the graph (no visited set in all_supertypes_of / inheritance), so the cost of one
+    // query grows exponentially with depth under multiple inheritance. That is a performance
+    // matter no given property speaks about (DESIGN.md section 7), and a bounded-liveness oracle
+    // must not be tripped by a query that is merely slow.
+    const MAX_LEVEL: usize = 6;
+    let mut levels: Vec<usize> = Vec::new();
     for i in 0..n {
         let name = format!("d{i}");
         let mut is: Vec<String> = Vec::new();
-        let k = rng.range(1, 3);
+        let eligible: Vec<usize> = (0..d_names.len()).filter(|j| levels[*j] < MAX_LEVEL).collect();
+        // size outliers: now and then a def with very many direct supertypes
+        let k = if eligible.len() >= 17 && rng.chance(1, 24) { rng.range(17, eligible.len().min(48)) } else { rng.range(1, 3) };
+        let mut level = 1;
         for _ in 0..k {
-            let parent = if d_names.is_empty() || rng.chance(1, 5) {
+            let parent = if eligible.is_empty() || rng.chance(1, 5) {
                 rng.pick_str(&["entity", "marker", "choice", "val", "ghost"]).to_string()
             } else {
-                d_names[rng.usize(d_names.len())].clone()
+                let j = eligible[rng.usize(eligible.len())];
+                level = level.max(levels[j] + 1);
+                d_names[j].clone()
             };
             if !is.contains(&parent) {
                 is.push(parent);
             }
         }
+        levels.push(level);
         let isr: Vec<&str> = is.iter().map(|s| s.as_str()).collect();
         let mut extra: Vec<(&str, String)> = Vec::new();
         if !d_names.is_empty() && rng.chance(1, 4) {
@@ -468,6 +481,7 @@ fn execute(case: &Case) -> Exec {
     let sched = sched_of(case);
     let shards = case.extra_usize("shards").unwrap_or(4);
     let hash_seed = case.extra.get("hash_seed").and_then(|v| v.as_u64()).unwrap_or(0);
+    let pair_b: Option<String> = case.extra_str("pair_b").map(|h| String::from_utf8_lossy(&unhex(h)).into_owned());
     // bounded liveness: 10^6 scheduling steps for ordinary runs; bulk sweeps make thousands of
     // queries, their budget is 2000 steps per query
     let n_queries: usize = threads.iter().map(|t| t.len()).sum();
@@ -493,7 +507,10 @@ fn execute(case: &Case) -> Exec {
             let defs_text = Arc::new(defs_text);
             let threads = Arc::new(threads);
             let r = std::panic::catch_unwind(std::panic::AssertUnwindSafe(|| {
-                runner.run(move || scenario(&defs_text, &threads, &slot2));
+                runner.run(move || match &pair_b {
+                    Some(b) => scenario_pair(&defs_text, b, &threads[0], &slot2),
+                    None => scenario(&defs_text, &threads, &slot2),
+                });
             }));
             let report = slot.lock().unwrap().take();
             match r {
@@ -527,6 +544,115 @@ fn make_ns(defs_text: &str) -> &'static Namespace<'static> {
 
 unsafe fn free_ns(ns: &'static Namespace<'static>) {
     drop(Box::from_raw(ns as *const Namespace<'static> as *mut Namespace<'static>));
+}
+
+/// `d<digits>` <-> `e<digits>` at word boundaries: an isomorphic renaming of the generated defs.
+fn map_names(text: &str, from: u8, to: u8) -> String {
+    let b = text.as_bytes();
+    let mut out = Vec::with_capacity(b.len());
+    let word = |c: u8| c.is_ascii_alphanumeric() || c == b'_';
+    let mut i = 0;
+    while i < b.len() {
+        if b[i] == from && (i == 0 || !word(b[i - 1])) && i + 1 < b.len() && b[i + 1].is_ascii_digit() {
+            let mut j = i + 1;
+            while j < b.len() && b[j].is_ascii_digit() {
+                j += 1;
+            }
+            if j == b.len() || !word(b[j]) {
+                out.push(to);
+                out.extend_from_slice(&b[i + 1..j]);
+                i = j;
+                continue;
+            }
+        }
+        out.push(b[i]);
+        i += 1;
+    }
+    String::from_utf8(out).unwrap_or_default()
+}
+
+/// Same def names, different `is` wiring: every plain `d<i>` row gets a new list of supertypes
+/// drawn from the core and the earlier `d<j>` (so the graph stays acyclic).
+fn rewire(text: &str, rng: &mut Rng) -> String {
+    let mut out = String::new();
+    let mut earlier: Vec<String> = Vec::new();
+    let mut levels: Vec<usize> = Vec::new();
+    for line in text.lines() {
+        let first = line.split(',').next().unwrap_or("");
+        let plain = first.strip_prefix("^d").is_some_and(|r| !r.is_empty() && r.bytes().all(|c| c.is_ascii_digit()));
+        if plain {
+            let name = first[1..].to_string();
+            // the `is` cell is the second cell: either empty or a bracketed list
+            let rest = &line[first.len() + 1..];
+            let after_is = if rest.starts_with('[') { rest.find(']').map_or(rest, |i| &rest[i + 1..]) } else { rest };
+            let k = rng.range(1, 3);
+            let mut is: Vec<String> = Vec::new();
+            let eligible: Vec<usize> = (0..earlier.len()).filter(|j| levels[*j] < 6).collect();
+            let mut level = 1;
+            for _ in 0..k {
+                let p = if eligible.is_empty() || rng.chance(1, 4) {
+                    rng.pick_str(&["entity", "marker", "choice", "val"]).to_string()
+                } else {
+                    let j = eligible[rng.usize(eligible.len())];
+                    level = level.max(levels[j] + 1);
+                    earlier[j].clone()
+                };
+                if !is.contains(&p) {
+                    is.push(p);
+                }
+            }
+            levels.push(level);
+            out.push_str(&format!("{first},[{}]{after_is}\n", is.iter().map(|s| format!("^{s}")).collect::<Vec<_>>().join(",")));
+            earlier.push(name);
+        } else {
+            out.push_str(line);
+            out.push('\n');
+        }
+    }
+    out
+}
+
+fn canon_unrenamed(ans: &str) -> String {
+    let mut v: Vec<String> = ans.split(',').map(|x| map_names(x, b'e', b'd')).collect();
+    v.sort();
+    v.join(",")
+}
+
+fn canon_sorted(ans: &str) -> String {
+    let mut v: Vec<&str> = ans.split(',').collect();
+    v.sort();
+    v.join(",")
+}
+
+/// Pair scenario (one task, no concurrency): namespace A is queried first; then namespace B - the
+/// same def names with a different `is` wiring - must answer exactly like an isomorphic copy of
+/// itself whose defs are renamed (d<i> -> e<i>), which nothing keyed by names can confuse with A.
+fn scenario_pair(defs_a: &str, defs_b: &str, ops: &[Op], slot: &Arc<StdMutex<Option<RunReport>>>) {
+    let ns_a = make_ns(defs_a);
+    for op in ops {
+        let _ = answer(ns_a, op);
+    }
+    let ns_b = make_ns(defs_b);
+    let b1: Vec<String> = ops.iter().map(|op| answer(ns_b, op)).collect();
+    let renamed = map_names(defs_b, b'd', b'e');
+    let ns_b2 = make_ns(&renamed);
+    let mut report = RunReport::default();
+    for (op, got) in ops.iter().zip(b1.iter()) {
+        let rop = Op { q: op.q.clone(), a: map_names(&op.a, b'd', b'e'), b: map_names(&op.b, b'd', b'e'), rec: Vec::new() };
+        let want = canon_unrenamed(&answer(ns_b2, &rop));
+        let got = canon_sorted(got);
+        report.answers += 1;
+        report.answers_hash = mix(&[report.answers_hash, fnv1a(got.as_bytes())]);
+        if got != want {
+            report.mismatches.push(format!("{op:?} on a namespace built after another namespace with the same def names had been queried answered {got:?}; an isomorphic copy with renamed defs answers {want:?}"));
+        }
+    }
+    unsafe {
+        free_ns(ns_a);
+        free_ns(ns_b);
+        free_ns(ns_b2);
+    }
+    *slot.lock().unwrap() = Some(report);
 }
 
 /// The simulated system: one cold namespace shared by N threads; afterwards every answer is
@@ -656,6 +782,14 @@ impl C14 {
         }
     }
 
+    /// (pair units, cases per pair unit)
+    fn pair_sizes(&self) -> (usize, usize) {
+        match self.ctx.tier {
+            Tier::Quick => (16, 150),
+            Tier::Thorough => (64, 2000),
+        }
+    }
+
     /// (bulk units, cases per bulk unit)
     fn bulk_sizes(&self) -> (usize, usize) {
         match self.ctx.tier {
@@ -773,6 +907,30 @@ fn gen_bulk_case(seed: u64, real_defs: Option<&(String, Vec<String>)>) -> Case {
     c
 }
 
+/// Pair case: A, then B = A rewired (same names), sequential symbol queries over every def.
+fn gen_pair_case(seed: u64) -> Case {
+    let rng = Rng::new(seed);
+    let mut wl = rng.fork("workload");
+    let mut kn = rng.fork("knobs");
+    let (text_a, syms) = gen_taxonomy(&mut wl);
+    let text_b = rewire(&text_a, &mut wl.fork("rewire"));
+    const PAIR_QUERIES: &[&str] = &["supertypes_of", "all_supertypes_of", "inheritance", "fits", "fits_marker", "fits_val", "fits_choice", "fits_entity", "subtypes_of", "all_subtypes_of", "has_subtype", "is", "tag_on", "choices_for"];
+    let mut ops: Vec<Op> = Vec::new();
+    for _ in 0..wl.range(8, 40) {
+        let q = *wl.pick(PAIR_QUERIES);
+        let a = syms[wl.usize(syms.len())].clone();
+        let b = if q == "fits" { syms[wl.usize(syms.len())].clone() } else { String::new() };
+        ops.push(Op { q: q.to_string(), a, b, rec: Vec::new() });
+    }
+    let mut c = Case::new("C14", "namespace-pair", text_a.as_bytes());
+    c.extra.insert("pair_b".into(), hex(text_b.as_bytes()).into());
+    c.extra.insert("threads".into(), serde_json::to_value(vec![ops]).unwrap());
+    c.extra.insert("shards".into(), (*kn.pick(&[2u64, 4, 16])).into());
+    c.extra.insert("hash_seed".into(), kn.next_u64().into());
+    c.extra.insert("sched".into(), serde_json::to_value(&Sched { mode: "random".into(), seed: kn.next_u64(), depth: 1, trace: vec![] }).unwrap());
+    c
+}
+
 fn real_defs(ctx: &Ctx) -> Option<(String, Vec<String>)> {
     let text = std::fs::read_to_string(ctx.repo.join("tests/defs/defs.zinc")).ok()?;
     let v = zinc_from_str(&text).ok()?;
@@ -793,6 +951,10 @@ impl Engine for C14 {
         for i in 0..self.bulk_sizes().0 as u64 {
             u.push(UnitSpec { id: n as u64 + 1 + i, name: format!("bulk:{i}"), isolated: false, exhaustive: false });
         }
+        let base = n as u64 + 1 + self.bulk_sizes().0 as u64;
+        for i in 0..self.pair_sizes().0 as u64 {
+            u.push(UnitSpec { id: base + i, name: format!("pair:{i}"), isolated: false, exhaustive: false });
+        }
         u
     }
 
@@ -807,6 +969,14 @@ impl Engine for C14 {
                 let mut c = gen_case(mix(&[seed, sub]), Some(d));
                 c.origin = format!("{uname} sub={sub}");
                 Some(c)
+            }));
+        }
+        if unit.name.starts_with("pair:") {
+            let seed = mix(&[self.ctx.seed, fnv1a(b"C14-pair"), unit.id]);
+            return Box::new((0..self.pair_sizes().1 as u64).map(move |sub| {
+                let mut c = gen_pair_case(mix(&[seed, sub]));
+                c.origin = format!("{uname} sub={sub}");
+                c
             }));
         }
         if unit.name.starts_with("bulk:") {
